@@ -13,15 +13,20 @@ notification."
 All statements are about every trace of the transition system `OPM.Runner.next` (model M12 of
 `EngineRunner` + `assign_sequence_number`; atomic steps = await points), `Reach tr s := run init tr = some s`.
 
-The code as it is violates two clauses (both reproduced on the real `EngineRunner` by `props/C27.py`):
+The code as it is violates three clauses (both reproduced on the real `EngineRunner` by `props/C27.py`):
 * order: while `CatchingUp` `_post_async` sends new messages directly, ahead of what is still buffered —
   a RunStoppedMsg posted then overtakes the buffered run data of its run (`C27_counterexample`);
+* stranded: when two sends fail together in steady state both failure handlers wait for the cancelled
+  steady-state task; the second one to wake executes `self._state_task = None` over the buffer task the first
+  one has just installed and installs another: the first buffer task is never cancelled and keeps appending
+  to `_message_buffer` every 5 s while the runner is Reconnected (`C27_counterexample_stranded`);
 * loss: when the steady-state task's own un-shielded first `_post_async` fails, `_set_state("Failed")`
   cancels and awaits the very task it runs in; the cancellation is swallowed, the task never ends, and every
   other failure handler waiting for it never buffers its message (`C27_counterexample_loss`).
-`C27_full` stays visible; `C27_partial` proves both clauses for every trace without the two triggers
+`C27_full` stays visible; `C27_partial` proves the clauses for every trace without the three triggers
 (and without a fault hitting a catch-up re-send, which would reorder the buffer).
-Conservation, sequence numbers, re-sends and the empty buffer in `Reconnected` hold for ALL traces.
+Conservation, sequence numbers and re-sends hold for ALL traces; the empty buffer in `Reconnected` for all
+traces without an orphaned buffer task.
 -/
 namespace OPM.C27
 open OPM.Runner
@@ -131,10 +136,15 @@ theorem seq_unique (tr : List Ev) (s : State) (h : Reach tr s) (a b q : Nat)
     (ha : seqOf s a = some q) (hb : seqOf s b = some q) : a = b :=
   Runner.seq_unique s (run_induct SeqWF seqWF_step tr init s seqWF_init h) a b q ha hb
 
-/-- **Nothing is stranded in the buffer once the runner reports it has caught up** (nor taken for a batch). -/
-theorem caught_up_buffer_empty (tr : List Ev) (s : State) (h : Reach tr s) (hs : s.st = .reconnected) :
-    s.buffer = [] ∧ s.batch = [] :=
-  run_induct Idle idle_step tr init s idle_init h (Or.inl hs)
+/-- **Nothing is stranded in the buffer once the runner reports it has caught up** (nor taken for a batch) —
+    as long as no buffer task has been orphaned (`orphans = 0`; see `C27_counterexample_stranded`). -/
+theorem caught_up_buffer_empty (tr : List Ev) (s : State) (h : Reach tr s) (ho : s.orphans = 0)
+    (hs : s.st = .reconnected) : s.buffer = [] ∧ s.batch = [] := by
+  have key : s.orphans = 0 → Idle s :=
+    run_induct (fun t => t.orphans = 0 → Idle t)
+      (fun a b e hn ha hb => idle_step a b e hn (ha (by have := orphans_mono a b e hn; omega)) hb)
+      tr init s (fun _ => idle_init) h
+  exact key ho (Or.inl hs)
 
 /-- A message that has entered the buffer is never dropped by cancellation or rejection. -/
 theorem buffered_never_dropped (tr : List Ev) (s : State) (h : Reach tr s) (id : Nat) (hb : id ∈ s.everBuf) :
@@ -205,21 +215,47 @@ theorem C27_full_refuted_by_loss : ¬ C27_full := by
   unfold NoneStuck at this
   rw [this] at hm; cases hm
 
+/-- Witness (stranded): two sends of the steady-state loop fail together; both handlers wait for the cancelled
+    state task; the first to wake installs a buffer task, the second executes `self._state_task = None` and
+    installs another one: the first buffer task is orphaned (never cancelled).  After the catch-up the runner
+    is Reconnected and the orphan buffers message 3. -/
+def strandWitness : List Ev :=
+  [.connect true, .setState .connected, .taskSet .steady, .produce 1 .other, .send 1 2, .produce 2 .other,
+   .send 2 3, .fail 1, .fail 2, .setState .failed, .wait 1 false, .setState .failed, .wait 2 false,
+   .taskClear false, .taskSet .buffering, .buf 1 2, .taskClear false, .taskSet .buffering, .buf 2 3,
+   .disconnect, .setState .disconnected, .connect true, .setState .reconnecting, .setState .catchingUp,
+   .take 2, .postBatch true [2, 3], .ok 1, .ok 2, .setState .reconnected, .waitOther, .taskClear false,
+   .taskSet .steady, .produce 3 (.data 1), .bufTask 3 4]
+
+theorem C27_counterexample_stranded :
+    ∃ s, Reach strandWitness s ∧ s.st = .reconnected ∧ s.buffer = [3] := by
+  obtain ⟨s, hs, hp⟩ := holdsAfter_spec strandWitness
+    (fun s => decide (s.st = .reconnected) && s.buffer == [3]) (by decide)
+  simp only [Bool.and_eq_true, decide_eq_true_eq, beq_iff_eq] at hp
+  exact ⟨s, hs, hp.1, hp.2⟩
+
+theorem C27_full_refuted_by_stranding : ¬ C27_full := by
+  intro h
+  obtain ⟨s, hs, hst, hb⟩ := C27_counterexample_stranded
+  have := (h strandWitness s hs).2.2.2.1 hst
+  rw [this] at hb; cases hb
+
 /-- Hypothesis of the partial theorem, decidable on the trace: no step is
     (a) the state task clearing `_state_task` itself (swallowed self-cancellation),
     (b) a stop notification sent directly while CatchingUp,
     (c) a failure of a message that had been buffered (fault during a catch-up re-send),
-    (d) a batch whose posts are re-buffered. -/
+    (d) a batch whose posts are re-buffered,
+    (e) a failure handler clearing `_state_task` while it refers to a live buffer task (orphaning it). -/
 def Calm (tr : List Ev) : Prop := calmFrom init tr = true
 
 instance (tr : List Ev) : Decidable (Calm tr) := by unfold Calm; infer_instance
 
-theorem ordWF_of_calm (tr : List Ev) : ∀ s0 s, Conserved s0 → Idle s0 → OrdWF s0 → calmFrom s0 tr = true →
-    run s0 tr = some s → OrdWF s := by
+theorem ordWF_of_calm (tr : List Ev) : ∀ s0 s, Conserved s0 → Idle s0 → s0.orphans = 0 → OrdWF s0 →
+    calmFrom s0 tr = true → run s0 tr = some s → OrdWF s ∧ Idle s ∧ s.orphans = 0 := by
   induction tr with
-  | nil => intro s0 s _ _ ho _ hr; simp only [run] at hr; cases hr; exact ho
+  | nil => intro s0 s _ hi hz ho _ hr; simp only [run] at hr; cases hr; exact ⟨ho, hi, hz⟩
   | cons e es ih =>
-    intro s0 s hc hi ho hcalm hr
+    intro s0 s hc hi hz ho hcalm hr
     simp only [run] at hr
     simp only [calmFrom, Bool.and_eq_true] at hcalm
     cases hn : next s0 e with
@@ -228,15 +264,16 @@ theorem ordWF_of_calm (tr : List Ev) : ∀ s0 s, Conserved s0 → Idle s0 → Or
       rw [hn] at hr
       have h2 := hcalm.2
       rw [hn] at h2
-      exact ih s1 s (conserved_step s0 s1 e hn hc) (idle_step s0 s1 e hn hi)
+      have hz1 := orphans_calm s0 s1 e hn hcalm.1 hz
+      exact ih s1 s (conserved_step s0 s1 e hn hc) (idle_step s0 s1 e hn hi hz1) hz1
         (ordWF_step s0 s1 e hn hcalm.1 hc hi ho) h2 hr
 
 /-- **What holds of the code as it is**: on every calm trace no message gets stuck and every delivered stop
     notification comes after the buffered run data of its run. -/
 theorem C27_partial (tr : List Ev) (s : State) (h : Reach tr s) (hcalm : Calm tr) :
-    NoneStuck s ∧ s.orderViol = false ∧ OrderOK s := by
-  have ho := ordWF_of_calm tr init s conserved_init idle_init ordWF_init hcalm h
-  refine ⟨ho.2.2.2, ho.2.2.1, ?_⟩
+    NoneStuck s ∧ s.orderViol = false ∧ OrderOK s ∧ (s.st = .reconnected → s.buffer = []) := by
+  obtain ⟨ho, hi, _⟩ := ordWF_of_calm tr init s conserved_init idle_init rfl ordWF_init hcalm h
+  refine ⟨ho.2.2.2, ho.2.2.1, ?_, fun hs => (hi (Or.inl hs)).1⟩
   intro p hp hd
   exact before_prefix _ _ _ _ (ho.2.1 p hp).2.2.2.2 hd
 
@@ -252,7 +289,10 @@ example : Calm calmWitness ∧ ∃ s, Reach calmWitness s ∧
     (decide (s.st = .reconnected) && s.delivered == [1, 2, 3] && s.owed == [(2, 3)] && s.buffer == []) = true :=
   ⟨by decide, holdsAfter_spec _ _ (by decide)⟩
 
-/-- The order witness is not calm (trigger (b)), the loss witness is not calm (trigger (a)). -/
-example : ¬ Calm orderWitness ∧ ¬ Calm lossWitness := by decide
+example : ∃ s, Reach calmWitness s ∧ (decide (s.st = .reconnected) && decide (s.orphans = 0)) = true :=
+  holdsAfter_spec _ _ (by decide)
+
+/-- The witnesses are not calm: order (b), loss (a), stranding (e). -/
+example : ¬ Calm orderWitness ∧ ¬ Calm lossWitness ∧ ¬ Calm strandWitness := by decide
 
 end OPM.C27
